@@ -31,6 +31,9 @@ type Replay struct {
 	Tier       string    `json:"tier"`
 	Build      BuildInfo `json:"build"`
 	RefVariant string    `json:"reference_variant,omitempty"` // differential replays: the other build
+	// FromSeed: the tape is not recorded (the process died with a fatal error of the Go runtime);
+	// the replay regenerates the run from the seed, which is the same pure function of the code.
+	FromSeed bool `json:"from_seed,omitempty"`
 	// History-dependent violations (the library keeps state between independent calls):
 	// the failing run only fails after the runs its worker process executed before it.
 	// With NeedsPrefix the replay first re-executes those runs (seed fan-out is a pure
